@@ -387,6 +387,9 @@ impl<'c, KD: Kind, const N: usize> MapEng<'c, KD, N> {
     pub fn op_retain(&mut self, w: usize, a: u8, b: u8, c: u8) {
         let mask: u32 = b as u32 | ((c as u32) << 8);
         let rewrite = a & 1 == 1;
+        // positional predicate: the verdict depends on how many entries were visited before, not
+        // on the key (a stateful FnMut); the model follows the verdicts actually given
+        let positional = a & 0x40 != 0;
         let base = self.newval(0);
         let mut fault = false;
         let liar = self.liar;
@@ -397,6 +400,8 @@ impl<'c, KD: Kind, const N: usize> MapEng<'c, KD, N> {
             let nv = |raw: u8| KD::vnorm(base | raw as u32);
             let m = &mut slot.c.m;
             let mut visits = [0u8; 256];
+            let mut verdict = [false; 256];
+            let mut calls = 0u32;
             // addresses of the references the predicate receives (no allocation inside the window)
             let mut seen_refs: Vec<(usize, usize)> = Vec::with_capacity(N + 2);
             let r = Self::lib(cx, || {
@@ -407,7 +412,9 @@ impl<'c, KD: Kind, const N: usize> MapEng<'c, KD, N> {
                     }
                     let raw = KD::kraw(kk);
                     visits[raw as usize] = visits[raw as usize].saturating_add(1);
-                    let kp = keep(raw);
+                    let kp = if positional { (mask >> (calls % 15)) & 1 == 1 } else { keep(raw) };
+                    calls += 1;
+                    verdict[raw as usize] = kp;
                     if kp && rewrite {
                         KD::vset(vv, nv(raw));
                     }
@@ -426,8 +433,16 @@ impl<'c, KD: Kind, const N: usize> MapEng<'c, KD, N> {
                     let before = slot.model.len();
                     let keys: Vec<u8> = slot.model.keys().copied().collect();
                     let mut removed_nonlast = false;
+                    if !liar {
+                        // an ideal dictionary puts every entry to the predicate exactly once
+                        for raw in 0..=255u8 {
+                            let want = if slot.model.contains_key(&raw) { 1 } else { 0 };
+                            let got = visits[raw as usize];
+                            cx.chk(P01, got == want, "retain-visits", || format!("retain called its predicate {got} time(s) for key {raw} (stored: {})", want == 1));
+                        }
+                    }
                     for kk in keys {
-                        if !keep(kk) {
+                        if !verdict[kk as usize] {
                             if slot.order.last() != Some(&kk) {
                                 removed_nonlast = true;
                             }
